@@ -1437,13 +1437,15 @@ void TopologyKernel::swap_cell_indices(CellHandle _h1, CellHandle _h2)
         return;
 
     // correct pointers to those cells
-    for (const auto hfh: cells_[_h1].halffaces()) {
-        if (incident_cell_per_hf_[hfh] == _h1)
-            incident_cell_per_hf_[hfh] = _h2;
-    }
-    for (const auto hfh: cells_[_h2].halffaces()) {
-        if (incident_cell_per_hf_[hfh] == _h2)
-            incident_cell_per_hf_[hfh] = _h1;
+    if (has_face_bottom_up_incidences()) {
+        for (const auto hfh: cells_[_h1].halffaces()) {
+            if (incident_cell_per_hf_[hfh] == _h1)
+                incident_cell_per_hf_[hfh] = _h2;
+        }
+        for (const auto hfh: cells_[_h2].halffaces()) {
+            if (incident_cell_per_hf_[hfh] == _h2)
+                incident_cell_per_hf_[hfh] = _h1;
+        }
     }
 
     // swap vector entries
@@ -1583,8 +1585,10 @@ void TopologyKernel::swap_face_indices(FaceHandle _h1, FaceHandle _h2)
     // swap vector entries
     std::swap(faces_[_h1], faces_[_h2]);
     detail::swap_bool(face_deleted_[_h1], face_deleted_[_h2]);
-    std::swap(incident_cell_per_hf_[_h1.halfface_handle(0)], incident_cell_per_hf_[_h2.halfface_handle(0)]);
-    std::swap(incident_cell_per_hf_[_h1.halfface_handle(1)], incident_cell_per_hf_[_h2.halfface_handle(1)]);
+    if (has_face_bottom_up_incidences()) {
+        std::swap(incident_cell_per_hf_[_h1.halfface_handle(0)], incident_cell_per_hf_[_h2.halfface_handle(0)]);
+        std::swap(incident_cell_per_hf_[_h1.halfface_handle(1)], incident_cell_per_hf_[_h2.halfface_handle(1)]);
+    }
     swap_property_elements(_h1, _h2);
     swap_property_elements(halfface_handle(_h1, 0), halfface_handle(_h2, 0));
     swap_property_elements(halfface_handle(_h1, 1), halfface_handle(_h2, 1));
@@ -1719,8 +1723,10 @@ void TopologyKernel::swap_edge_indices(EdgeHandle _h1, EdgeHandle _h2)
     // swap vector entries
     std::swap(edges_[_h1], edges_[_h2]);
     detail::swap_bool(edge_deleted_[_h1], edge_deleted_[_h2]);
-    std::swap(incident_hfs_per_he_[_h1.halfedge_handle(0)], incident_hfs_per_he_[_h2.halfedge_handle(0)]);
-    std::swap(incident_hfs_per_he_[_h1.halfedge_handle(1)], incident_hfs_per_he_[_h2.halfedge_handle(1)]);
+    if (has_edge_bottom_up_incidences()) {
+        std::swap(incident_hfs_per_he_[_h1.halfedge_handle(0)], incident_hfs_per_he_[_h2.halfedge_handle(0)]);
+        std::swap(incident_hfs_per_he_[_h1.halfedge_handle(1)], incident_hfs_per_he_[_h2.halfedge_handle(1)]);
+    }
     swap_property_elements(_h1, _h2);
     swap_property_elements(halfedge_handle(_h1, 0), halfedge_handle(_h2, 0));
     swap_property_elements(halfedge_handle(_h1, 1), halfedge_handle(_h2, 1));
@@ -1786,7 +1792,8 @@ void TopologyKernel::swap_vertex_indices(VertexHandle _h1, VertexHandle _h2)
 
     // swap vector entries
     detail::swap_bool(vertex_deleted_[_h1], vertex_deleted_[_h2]);
-    std::swap(outgoing_hes_per_vertex_[_h1], outgoing_hes_per_vertex_[_h2]);
+    if (has_vertex_bottom_up_incidences())
+        std::swap(outgoing_hes_per_vertex_[_h1], outgoing_hes_per_vertex_[_h2]);
     swap_property_elements(_h1, _h2);
 }
 
